@@ -27,7 +27,31 @@ enum Reference {
 fn json_dead_end_family(rng: &mut Rng) -> Value {
     let a = rng.range(-30, 30);
     let w = rng.range(0, 12);
-    match rng.below(12) {
+    match rng.below(14) {
+        12 => {
+            // a length bound next to the length a pattern implies, at several magnitudes: off by one below, equal, above
+            // (above = unsatisfiable: the schema is refused, or the property is simply never offered)
+            let n = *rng.pick(&[3usize, 12, 40, 300, 700]);
+            let d = rng.below(3);
+            let minl = n + d - 1;
+            let s = json!({"type": "string", "pattern": format!("^[a-z]{{1,{n}}}$"), "minLength": minl});
+            let mut o = json!({"type": "object", "properties": {"b": {"type": "boolean"}, "a": s}, "additionalProperties": false});
+            if rng.chance(1, 2) {
+                o["required"] = json!(["b"]);
+            }
+            if rng.chance(1, 2) {
+                o["x-guidance"] = json!({"whitespace_flexible": false});
+            }
+            o
+        }
+        13 => {
+            let l = *rng.pick(&[2usize, 3, 40, 41, 400, 401]);
+            let mut o = json!({"type": "array", "prefixItems": [{"type": "integer", "minimum": 0, "maximum": 9}, {"type": "string", "pattern": "^([a-z][0-9])+$", "minLength": l, "maxLength": l}], "items": false, "minItems": 1});
+            if rng.chance(1, 2) {
+                o["x-guidance"] = json!({"whitespace_flexible": false});
+            }
+            o
+        }
         0 => json!({"type": "integer", "minimum": a, "maximum": a + w, "multipleOf": *rng.pick(&[2, 3, 5, 7])}),
         1 => json!({"type": "number", "exclusiveMinimum": a, "exclusiveMaximum": a + 1 + w, "multipleOf": *rng.pick(&[0.5, 0.25, 0.1])}),
         2 => json!({"type": "number", "minimum": a as f64 + 0.25, "maximum": a as f64 + 0.75}),
@@ -243,7 +267,7 @@ fn run_case(ctx: &mut Ctx, idx: u64) {
 }
 
 pub fn run(ctx: &mut Ctx) {
-    let n_cases = ctx.pick(5000, 800000);
+    let n_cases = ctx.pick(10000, 800000);
     for idx in 0..n_cases {
         if !ctx.mine(idx) {
             continue;
